@@ -416,7 +416,7 @@ impl AcctCase {
             }
 
             if self.op == Op::Conflict {
-                if o.status != Status::Exit(2) || !o.stdout.is_empty() {
+                if o.status.ok() || !o.stdout.is_empty() {
                     rep.violate(
                         "C16",
                         "selectors-combined",
